@@ -895,10 +895,10 @@ func newDischarger(tier string) *Discharger {
 // ufBudget: seconds for one attempt with the nonlinear products abstracted (most value-level
 // goals are decided this way in a few seconds; under load they need more).
 func (d *Discharger) ufBudget() int {
-	if b := d.fullS / 3; b > 10 {
+	if b := d.fullS / 2; b > 15 {
 		return b
 	}
-	return 10
+	return 15
 }
 
 func (d *Discharger) cleanup() { os.RemoveAll(d.workdir) }
